@@ -177,6 +177,10 @@ func (x *enfRun) awaitTip(deadline, growEvery time.Duration) bool {
 // EnforceScenario is scenario k of the enforcement family (runs in a child
 // process).
 func EnforceScenario(seed int64, k int, res *l2.Result) {
+	if k >= enfClassic {
+		HostScenario(seed, k-enfClassic, res)
+		return
+	}
 	plan := EnfPlanFromSeed(seed, k)
 	if js := os.Getenv("C13_ENF_PLAN"); js != "" { // debugging aid: run a hand-written plan
 		var hp EnfPlan
@@ -442,6 +446,13 @@ func EnforceScenario(seed int64, k int, res *l2.Result) {
 	poke()
 	x.settle()
 
+	// Quiescence before the final readings (steering only, bounded in polls):
+	// a peer without the required service bits gives cause for a ban on every
+	// connection the client opens to it, so a connection to such a peer that
+	// is open right now (admitted late, mid-handshake) would have the ban
+	// land between the last IsBanned reading and the reopening of the store.
+	x.quiesce()
+
 	// Phase 6: every connection to a banned address that got as far as a
 	// completed handshake must be closed (generous watchdog).
 	x.awaitClosures()
@@ -511,6 +522,39 @@ func (x *enfRun) fetchBlocks() {
 	}
 }
 
+// quiesce waits, for at most quiescePolls polls, until every peer without the
+// required service bits that the client ever opened a connection to has been
+// seen banned and has no open connection at this instant.
+func (x *enfRun) quiesce() {
+	const quiescePolls = 1200
+	w := x.e.W
+	for i := 0; i < quiescePolls; i++ {
+		busy := false
+		for _, ep := range x.e.Peers {
+			switch ep.Plan.Class {
+			case clNoCF, clNoWit, clNoBoth:
+			default:
+				continue
+			}
+			a := ep.P.Addr
+			if w.Net.TotalConns(a) == 0 {
+				continue
+			}
+			if _, seen := x.sight(a); !seen || w.Net.OpenConns(a) > 0 {
+				busy = true
+			}
+		}
+		if !busy {
+			if i > 0 {
+				x.res.Count("enf_final_reading_waited_for_a_pending_service_ban", 1)
+			}
+			return
+		}
+		time.Sleep(5 * time.Millisecond)
+	}
+	x.res.Count("enf_final_reading_not_quiescent", 1)
+}
+
 // awaitClosures waits until no banned address has an open connection on
 // which the handshake completed.
 func (x *enfRun) awaitClosures() {
@@ -533,15 +577,16 @@ func (x *enfRun) awaitClosures() {
 
 // connView is one connection of an address with the events that belong to it.
 type connView struct {
-	Index       int
-	OpenSeq     int64
-	Open        bool           // neither end closed (read at analysis time)
-	VersionSeq  int64          // log Seq of the peer's own version message on this connection (0 = none)
-	VersionSent bool           // the peer sent its version => it had read the client's
-	Handshook   bool           // handshake completed (client's verack read)
-	SelfClosed  bool           // the PEER closed it ("disconnect by peer")
-	Rx          map[string]int // messages received after the handshake, by command
-	evs         []netsim.Event
+	Index        int
+	OpenSeq      int64
+	Open         bool           // neither end closed (read at analysis time)
+	VersionSeq   int64          // log Seq of the peer's own version message on this connection (0 = none)
+	VersionSent  bool           // the peer sent its version => it had read the client's
+	Handshook    bool           // handshake completed (client's verack read)
+	HandshakeSeq int64          // log Seq of that moment (0 = never)
+	SelfClosed   bool           // the PEER closed it ("disconnect by peer")
+	Rx           map[string]int // messages received after the handshake, by command
+	evs          []netsim.Event
 }
 
 // afterBan: the client dealt with this connection after the ban was recorded.
@@ -587,6 +632,7 @@ func connViews(w *l2.World, addr string, evs []netsim.Event) []connView {
 			c.VersionSeq = ev.Seq
 		case ev.Dir == "ev" && ev.Cmd == "handshake":
 			c.Handshook = true
+			c.HandshakeSeq = ev.Seq
 		case ev.Dir == "ev" && ev.Cmd == "disconnect":
 			c.SelfClosed = true
 		case ev.Dir == "rx":
@@ -626,8 +672,8 @@ type peerEnd struct {
 	VersionSent         bool
 	SelfDisconnects     int
 
-	LieTold     string   `json:",omitempty"` // how the lie was told: "", "cfheaders", "cfheaders-prev", "cfcheckpt", "cfcheckpt-only"
-	LieRounds   int      `json:",omitempty"` // checkpoint-only liar: cfcheckpt messages with the false checkpoint it sent
+	LieTold   string `json:",omitempty"` // how the lie was told: "", "cfheaders", "cfheaders-prev", "cfcheckpt", "cfcheckpt-only"
+	LieRounds int    `json:",omitempty"` // checkpoint-only liar: cfcheckpt messages with the false checkpoint it sent
 	// ConflictRounds: how often this liar answered, with its false filter
 	// hash, a getcfheaders request an honest peer answered as well;
 	// DisputedBlockServed: how often a peer then served the (true) disputed
@@ -640,15 +686,15 @@ type peerEnd struct {
 	// this peer itself then served, for the disputed block, a filter that
 	// does not hash to the filter hash it had announced (its own two
 	// messages prove the announcement false; no block needed).
-	LiarOnlyRounds     int `json:",omitempty"`
-	SelfContradictions int `json:",omitempty"`
-	Detectable  string   `json:",omitempty"` // why the client could see the conflict ("" = it could not)
-	DetectSeq   int64    `json:",omitempty"` // log Seq of the first message that made it visible
-	BadServed   int      `json:",omitempty"` // mutated blocks sent in answer to getdata
-	BadPrompt   int      `json:",omitempty"` // ... of which promptly
-	Unanswered  []string `json:",omitempty"`
-	LateAnswers []string `json:",omitempty"`
-	Excuse      string   `json:",omitempty"` // why a ban of this honest-class peer would be by design
+	LiarOnlyRounds     int      `json:",omitempty"`
+	SelfContradictions int      `json:",omitempty"`
+	Detectable         string   `json:",omitempty"` // why the client could see the conflict ("" = it could not)
+	DetectSeq          int64    `json:",omitempty"` // log Seq of the first message that made it visible
+	BadServed          int      `json:",omitempty"` // mutated blocks sent in answer to getdata
+	BadPrompt          int      `json:",omitempty"` // ... of which promptly
+	Unanswered         []string `json:",omitempty"`
+	LateAnswers        []string `json:",omitempty"`
+	Excuse             string   `json:",omitempty"` // why a ban of this honest-class peer would be by design
 
 	views []connView
 }
@@ -1249,10 +1295,29 @@ func (x *enfRun) judge(f *enfEnd) {
 			res.Inconcl("ban store unreadable after the client stopped: " + pe.StoreErr)
 			continue
 		}
-		if pe.BannedAPI != pe.StoreBanned {
+		// The two reads are NOT simultaneous: IsBanned is read while the client
+		// runs, the store is reopened after Stop returned. No scenario of this
+		// family lifts a ban and bans last 24 h, so "API said banned, the
+		// reopened store has no record" cannot be explained by anything that
+		// happened in between: the ban was reported but is not durable. The
+		// other direction decides nothing by itself: a ban recorded between the
+		// last API reading and Stop (a peer that gave cause for a ban in the
+		// session's last milliseconds) is exactly what it looks like. It is a
+		// finding only when the harness had already SEEN the ban through the
+		// API before that last reading (then the API went back on a ban the
+		// store still holds).
+		switch {
+		case pe.BannedAPI && !pe.StoreBanned:
 			violate(pe, evid.Sig("c13-enf/store/isbanned-disagrees-with-reopened-store", pe.Class),
-				fmt.Sprintf("%s peer %s: IsBanned reported %v at the end of the session but the reopened ban store says banned=%v (reason %q)",
-					pe.Label, pe.Addr, pe.BannedAPI, pe.StoreBanned, pe.StoreReason))
+				fmt.Sprintf("%s peer %s: IsBanned reported true at the end of the session but the ban store reopened after Stop has no record for the address (bans last 24 h and nothing lifts one in this session): the ban was reported but is not durable",
+					pe.Label, pe.Addr))
+		case !pe.BannedAPI && pe.StoreBanned && pe.SawBan:
+			violate(pe, evid.Sig("c13-enf/store/isbanned-disagrees-with-reopened-store", pe.Class, "api-went-back-on-a-ban-it-had-reported"),
+				fmt.Sprintf("%s peer %s: IsBanned was seen true during the session (log seq %d), reported false at the end of the session, and the ban store reopened after Stop says banned=true (reason %q)",
+					pe.Label, pe.Addr, pe.BanSeq, pe.StoreReason))
+		case !pe.BannedAPI && pe.StoreBanned:
+			// Banned between the last API reading and the end of Stop.
+			res.Count("enf_bans_recorded_between_last_api_reading_and_store_reopening", 1)
 		}
 		if pe.SawBan && !pe.BannedAPI {
 			violate(pe, evid.Sig("c13-enf/store/ban-vanished", pe.Class),
